@@ -190,6 +190,31 @@ pub fn candles(rng: &mut Rng, len: usize, class: &str) -> Vec<Candle> {
 	out
 }
 
+/// a short volatile stretch on a two-decimal price grid followed by a completely flat tail: running sums are left holding
+/// rounding residue, which is where quotients behind exact `== 0` guards go wrong
+pub fn candles_burst_flat(rng: &mut Rng, len: usize) -> Vec<Candle> {
+	type V = yata::core::ValueType;
+	let m = 6 + rng.below(40) as usize;
+	let mut p = (5.0 + 95.0 * rng.unit() * 100.0).round() / 100.0;
+	let step = *rng.pick(&[0.05, 0.5, 2.5]);
+	let mut out = Vec::with_capacity(len);
+	for i in 0..len {
+		if i < m {
+			let q = ((p + step * rng.gauss()).max(0.5) * 100.0).round() / 100.0;
+			let (hi, lo) = (p.max(q), p.min(q));
+			let high = ((hi + step * 0.3 * rng.unit()) * 100.0).round() / 100.0;
+			let low = (((lo - step * 0.3 * rng.unit()).max(0.25)) * 100.0).round() / 100.0;
+			let volume = (1.0 + rng.below(2000) as f64) * if rng.chance(1, 8) { 0.0 } else { 1.0 };
+			out.push(Candle { open: p as V, high: high.max(hi) as V, low: low.min(lo) as V, close: q as V, volume: volume as V });
+			p = q;
+		} else {
+			let volume = if rng.chance(1, 2) { 0.0 } else { 100.0 };
+			out.push(Candle { open: p as V, high: p as V, low: p as V, close: p as V, volume: volume as V });
+		}
+	}
+	out
+}
+
 /// lengths explored in the quick tier (DESIGN §4) for PeriodType = u8
 pub fn quick_lengths(rng: &mut Rng, max: u64) -> Vec<u64> {
 	let mut v: Vec<u64> = vec![1, 2, 3, 4, 5, 7, 8, 13, 16, 31, 127, 128, 253, 254]
